@@ -148,6 +148,23 @@ def execute(ctx, case):
             v[3:-3] = np.sort(rs.uniform(allv.min(), allv.max(), len(v) - 6))
             op_group_cm(" (long vectors differing in the interior)", ths=v, sample=rs.integers(0, len(v), 12))
 
+    def op_group_cm_layout():
+        # the same grid of thresholds in several memory layouts (C, Fortran, transposed / strided views): positions are what counts
+        g2 = rs.choice(np.concatenate([allv, allv + 0.25]), (3, 4))
+        big = np.zeros((6, 8))
+        big[::2, ::2] = g2
+        for lay, arr in (("C", g2), ("F", np.asfortranarray(g2)), ("T-view", np.ascontiguousarray(g2.T).T), ("strided", big[::2, ::2])):
+            gcm = gs.group_cm(arr).matrix
+            ok_shape = gcm.shape == (len(gs.groups), 3, 4, 2, 2)
+            C(ok_shape, "group_cm shape is not (G,)+threshold.shape+(2,2)", "gs-group-cm-shape", layout=lay, got=gcm.shape)
+            if not ok_shape:
+                continue
+            for i, g in enumerate(gs.groups):
+                fp, fn = pos[pg == g], neg[ng == g]
+                ref = np.array([R.count_cm(fp.tolist(), fn.tolist(), t, sc, ec) for t in g2.reshape(-1).tolist()]).reshape(3, 4, 2, 2)
+                C(np.array_equal(gcm[i], ref), "group_cm on a 2-d threshold grid differs from counting at the same positions", "gs-group-cm", group=str(g), layout=lay)
+            C(np.array_equal(gcm.sum(axis=0), gs.cm(arr).matrix), "per-group matrices do not sum to the overall matrix (2-d grid)", "gs-partition", layout=lay)
+
     def op_groupwise():
         for m in ("fnr", "tpr", "topr"):
             gw = groupwise(m)(gs, threshold=ths)
@@ -170,7 +187,7 @@ def execute(ctx, case):
                     C(len(b.pos) == len(pos) and len(b.neg) == len(neg), "by_label: class sizes not preserved", "gs-bs-label")
         return run
 
-    ops = [op_swap, op_from_labels, op_group_cm, op_groupwise, op_getitem, op_getitem] + ([op_group_cm_near] if case.get("_seed", 0) % 3 == 0 else [])
+    ops = [op_swap, op_from_labels, op_group_cm, op_groupwise, op_getitem, op_getitem] + ([op_group_cm_near] if case.get("_seed", 0) % 3 == 0 else []) + ([op_group_cm_layout] if case.get("_seed", 0) % 3 == 1 else [])
     for meth in ("replacement", "single_pass", "dynamic"):
         for strat in (None, "by_label", "by_group"):
             if strat == "by_group" and not strata_ok and meth != "replacement":
